@@ -13,15 +13,15 @@
      signature checker does not die on calls that satisfy its own assertions (`CheckerNoAbnOn`).
   2. The transaction checker of a `--tx` session satisfies `CheckerNoAbnOn` when its input index exists
      (`C15_txChecker_noabn`); its assertions are real (`C15_txChecker_asserts`), they are just never violated.
-  3. Start-up (`spendSetup`): ends abnormally only through the value-expression evaluator on `--pretend-valid`
-     (`C15_spendSetup_abnormal_only_pretend`); a session it starts has `EdReady` and an existing input index, hence
+  3. Start-up (`spendSetup`): never ends abnormally (`C15_spendSetup_noabn`; the only candidate was the
+     value-expression evaluator on `--pretend-valid`, `C15_spendSetup_abnormal_only_pretend`); a session it starts has `EdReady` and an existing input index, hence
      never ends abnormally (`C15_spend_session_never_abnormal`).
-  4. Value parser (`btcc argv`, `Value(text)`): of the four abnormal sites of Model/Value.lean — read past the end of
-     the string, `args_string[-1]`, nesting fuel, uncaught `scriptnum_error` in `Value::int_value` — the first three
-     are unreachable; the last one IS reachable through the inline function `int(…)` on data longer than 4 bytes
-     (`C15_value_reachable_abnormal`; confirmed on the sanitizer build of the tree this was written against:
-     `btcc 'int(0x0102030405)'` → SIGABRT), and it is the only one (`C15_btcc_only_int`, `C15_valueData_only_int`);
-     texts without `(` have no abnormal outcome at all.
+  4. Value parser (`btcc argv`, `Value(text)`): the two abnormal sites of Model/Value.lean — read past the end of the
+     string, `args_string[-1]` — are unreachable (`C15_btcc_noabn`, `C15_valueData_noabn`, `C15_valueOf_noabn`).
+     What used to be reachable is gone from the tree: the `scriptnum_error` of `Value::int_value` (inline function
+     `int(…)` on data longer than 4 bytes; `btcc 'int(0x0102030405)'` was SIGABRT) is a C++ exception that every
+     `main` now catches (`C15_value_exception_reported`), and unbounded nesting is the parse error of
+     `Value::DepthGuard` (more than 200 levels: `exit(1)`).
   5. The P2SH hand-over: `assert(!stack.empty())` (now a `SCRIPT_ERR_INVALID_STACK_OPERATION` guard) can be reached
      only with the help of `exec`: in sessions driven by `step`/`rewind` alone the saved stack is never empty at the
      hand-over (`C15_p2sh_saved_stack_nonempty`), because `OP_HASH160` fails on the empty stack it was saved from.
@@ -269,17 +269,10 @@ theorem C15_spendSetup_abnormal_only_pretend (h : HashCtx) (tc : TapCtx) (vcx : 
     ∃ p, a.pretend = some p ∧ parsePretendValidExpr vcx p = .error (.abnormal k) :=
   spendSetup_abnormal_only_pretend h tc vcx cb a k hk
 
-/-- …and then only with the uncaught `scriptnum_error` of an `int(…)` call (see section 4) -/
-theorem C15_spendSetup_only_int (h : HashCtx) (tc : TapCtx) (vcx : VCtx) (cb : CheckerBuilder) (a : SpendArgs)
-    (k : String) (hk : spendSetup h tc vcx cb a = .error (.abnormal k)) :
-    k = "uncaught scriptnum_error in Value::int_value" :=
-  spendSetup_only_int h tc vcx cb a k hk
-
-/-- without `--pretend-valid`, or with one that contains no `(`, never -/
+/-- …which it never does (see section 4): start-up never ends abnormally -/
 theorem C15_spendSetup_noabn (h : HashCtx) (tc : TapCtx) (vcx : VCtx) (cb : CheckerBuilder) (a : SpendArgs)
-    (hp : ∀ p, a.pretend = some p → ∀ c ∈ p, c.toNat ≠ 40) (k : String) :
-    spendSetup h tc vcx cb a ≠ .error (.abnormal k) :=
-  spendSetup_noabn h tc vcx cb a hp k
+    (k : String) : spendSetup h tc vcx cb a ≠ .error (.abnormal k) :=
+  spendSetup_noabn h tc vcx cb a k
 
 /-- what `configure_tx_txin` leaves is initialised as its signature version requires -/
 theorem C15_configure_edReady (h : HashCtx) (tc : TapCtx) (tx txin : Tx) (idx vout : Nat) (sv : SigVersion)
@@ -337,43 +330,33 @@ theorem C15_glue_spend_session_never_abnormal (h : HashCtx) (tc : TapCtx) (vcx :
 
 /-! ## 4. the value parser -/
 
-/-- **C15, `btcc argv`.**  Whatever the arguments: the only abnormal outcome is the uncaught `scriptnum_error` of
-    `Value::int_value` (inline function `int(…)` on data longer than 4 bytes).  In particular the read past the end of
-    the string, `args_string[-1]` and the nesting fuel are unreachable (the fuel `btcc` provides always suffices). -/
-theorem C15_btcc_only_int (cx : VCtx) (argv : List Bytes) (k : String) (h : btcc cx argv = .error (.abnormal k)) :
-    k = "uncaught scriptnum_error in Value::int_value" :=
-  btcc_only_int cx argv k h
+/-- **C15, `btcc argv`.**  Whatever the arguments: no abnormal outcome — the read past the end of the string and
+    `args_string[-1]` are unreachable; a script number overflow in `int(…)` is caught by `main` (exit status 1);
+    nesting beyond 200 levels is a parse error (exit status 1). -/
+theorem C15_btcc_noabn (cx : VCtx) (argv : List Bytes) (k : String) : btcc cx argv ≠ .error (.abnormal k) :=
+  btcc_noabn cx argv k
 
-/-- **C15, `Value(text)`** (how btcdeb reads its script and stack arguments, `--pretend-valid` fields, …) -/
-theorem C15_valueData_only_int (cx : VCtx) (text : Bytes) (k : String) (h : valueData cx text = .error (.abnormal k)) :
-    k = "uncaught scriptnum_error in Value::int_value" :=
-  valueData_only_int cx text k h
+/-- **C15, `Value(text)`** (how btcdeb and tap read script and stack arguments, `--pretend-valid` fields, …) -/
+theorem C15_valueData_noabn (cx : VCtx) (text : Bytes) (k : String) : valueData cx text ≠ .error (.abnormal k) :=
+  valueData_noabn cx text k
 
-/-- no `(` in the arguments (no inline function call): no abnormal outcome at all -/
-theorem C15_btcc_noabn_of_no_paren (cx : VCtx) (argv : List Bytes) (hp : ∀ a ∈ argv, ∀ c ∈ a, c.toNat ≠ 40) (k : String) :
-    btcc cx argv ≠ .error (.abnormal k) :=
-  btcc_noabn_of_no_paren cx argv hp k
-
-theorem C15_valueData_noabn_of_no_paren (cx : VCtx) (text : Bytes) (hp : ∀ c ∈ text, c.toNat ≠ 40) (k : String) :
-    valueData cx text ≠ .error (.abnormal k) :=
-  valueData_noabn_of_no_paren cx text hp k
-
-/-- the constructor in general: a fuel of (number of non-space bytes + 1) suffices, whatever length argument is passed -/
-theorem C15_valueOf_only_int (cx : VCtx) (fuel : Nat) (full : Bytes) (vlen : Nat) (hf : nonSpace full + 1 ≤ fuel)
-    (k : String) (h : valueOf cx fuel full vlen = .error (.abnormal k)) :
-    k = "uncaught scriptnum_error in Value::int_value" :=
-  valueOf_only_int' cx fuel full vlen hf k h
+/-- the constructor in general: whatever nesting budget and whatever length argument is passed -/
+theorem C15_valueOf_noabn (cx : VCtx) (fuel : Nat) (full : Bytes) (vlen : Nat) (k : String) :
+    valueOf cx fuel full vlen ≠ .error (.abnormal k) :=
+  valueOf_noabn cx fuel full vlen k
 
 /-- appending values to a script (`operator>>`) never dies: `int_value()` is only consulted for data shorter than 5 bytes -/
 theorem C15_appendAll_noabn (vs : List Value) (s : Bytes) (k : String) : appendAll vs s ≠ .error (.abnormal k) :=
   appendAll_noabn vs s k
 
-/-- **The reachable abnormal outcome**: `btcc 'int(0x0102030405)'`, `btcdeb '[int(0x0102030405)]'`,
-    `--pretend-valid=int(0x0102030405):…` — an uncaught `scriptnum_error` (SIGABRT) in the tree this was found in
-    (fixed by b143bb8 / 75b08e7 / 55dfef3: caught at top level, diagnostic and exit 1). -/
-theorem C15_value_reachable_abnormal (cx : VCtx) :
+/-- what used to be the reachable abnormal outcome (`btcc 'int(0x0102030405)'`: uncaught `scriptnum_error`, SIGABRT)
+    is an exception the tools report: `error: script number overflow`, exit status 1 (f7842e6 / 3d7351f / 5c2ae96);
+    `Value(text)` itself raises it, the callers' `main`s catch it -/
+theorem C15_value_exception_reported (cx : VCtx) :
     btcc cx [[105, 110, 116, 40, 48, 120, 48, 49, 48, 50, 48, 51, 48, 52, 48, 53, 41]]
-      = .error (.abnormal "uncaught scriptnum_error in Value::int_value") := by rfl
+      = .error (.exit1 "error: script number overflow") ∧
+    valueData cx [105, 110, 116, 40, 48, 120, 48, 49, 48, 50, 48, 51, 48, 52, 48, 53, 41]
+      = .error (.exc "script number overflow") := ⟨by rfl, by rfl⟩
 
 /-! ## 5. non-vacuity -/
 
